@@ -389,6 +389,17 @@ static bool alloc_request(Task *t, uintptr_t ra, uint32_t *site_out) {
     }
     return false;
 }
+// bit i of OpResult::libc_static: the call used libc function g_libc_static_names[i], which keeps its
+// result or its continuation state in static storage shared by all threads
+const char *g_libc_static_names[] = {"asctime", "ctime", "localtime", "gmtime", "strtok", "tmpnam(NULL)", "rand", "setlocale(change)"};
+static void libc_probe(int idx) {
+    Task *t = t_self;
+    if (t && t->op) {
+        t->res[t->cur_op].libc_static |= 1u << idx;
+        sim_log(100, (uint64_t)idx, 0);
+    }
+    on_event();
+}
 struct AllocCall {
     int kind; // 0 malloc, 1 calloc, 2 realloc, 3 free
     size_t a, b;
@@ -481,20 +492,19 @@ void __wrap_free(void *p) {
 
 // non-reentrant libc entry points: referenced by the library only if a change
 // introduces them; their use is a yield point and is logged (C12 channel probe)
-#define LIBC_PROBE(name) sim_log(100, hash_bytes(name, strlen(name)), 0); on_event();
-char *__wrap_asctime(const struct tm *tm) { LIBC_PROBE("asctime"); char *r = asctime(tm); on_event(); return r; }
-char *__wrap_ctime(const time_t *t) { LIBC_PROBE("ctime"); char *r = ctime(t); on_event(); return r; }
-struct tm *__wrap_localtime(const time_t *t) { LIBC_PROBE("localtime"); struct tm *r = localtime(t); on_event(); return r; }
-struct tm *__wrap_gmtime(const time_t *t) { LIBC_PROBE("gmtime"); struct tm *r = gmtime(t); on_event(); return r; }
-char *__wrap_strtok(char *s, const char *d) { LIBC_PROBE("strtok"); char *r = strtok(s, d); on_event(); return r; }
-char *__wrap_tmpnam(char *s) { LIBC_PROBE("tmpnam"); char *r = tmpnam(s); on_event(); return r; }
+char *__wrap_asctime(const struct tm *tm) { libc_probe(0); char *r = asctime(tm); on_event(); return r; }
+char *__wrap_ctime(const time_t *t) { libc_probe(1); char *r = ctime(t); on_event(); return r; }
+struct tm *__wrap_localtime(const time_t *t) { libc_probe(2); struct tm *r = localtime(t); on_event(); return r; }
+struct tm *__wrap_gmtime(const time_t *t) { libc_probe(3); struct tm *r = gmtime(t); on_event(); return r; }
+char *__wrap_strtok(char *s, const char *d) { libc_probe(4); char *r = strtok(s, d); on_event(); return r; }
+char *__wrap_tmpnam(char *s) { if (!s) libc_probe(5); else on_event(); char *r = tmpnam(s); on_event(); return r; }
 int __wrap_wctomb(char *s, wchar_t wc) { on_event(); int r = wctomb(s, wc); on_event(); return r; }
 int __wrap_mbtowc(wchar_t *pwc, const char *s, size_t n) { on_event(); int r = mbtowc(pwc, s, n); on_event(); return r; }
 int __wrap_mblen(const char *s, size_t n) { on_event(); int r = mblen(s, n); on_event(); return r; }
 size_t __wrap_wcrtomb(char *s, wchar_t wc, mbstate_t *ps) { on_event(); size_t r = wcrtomb(s, wc, ps); on_event(); return r; }
 char *__wrap_strerror(int e) { on_event(); char *r = strerror(e); on_event(); return r; }
-int __wrap_rand(void) { LIBC_PROBE("rand"); return rand(); }
-char *__wrap_setlocale(int cat, const char *loc) { on_event(); char *r = setlocale(cat, loc); on_event(); return r; }
+int __wrap_rand(void) { libc_probe(6); return rand(); }
+char *__wrap_setlocale(int cat, const char *loc) { if (loc) libc_probe(7); else on_event(); char *r = setlocale(cat, loc); on_event(); return r; }
 }
 
 // ------------------------------------------------------------------ handlers
